@@ -184,7 +184,7 @@ func cmdLoadHist(args []string) {
 			if !okMatches {
 				what := fmt.Sprintf("verdict: load returned error %v, the model says ok=%v (%s %s)", err, st.OK, st.Why, st.Off)
 				cs["aspect"] = "verdict"
-				rep.Mismatch(vh.Mismatch{Case: cs, Step: si + 1, What: what, Known: known})
+				rep.Mismatch(vh.Mismatch{Case: copyCase(cs), Step: si + 1, What: what, Known: known})
 				break
 			}
 			if *offender && err != nil && len(st.Offs) > 0 {
@@ -203,11 +203,12 @@ func cmdLoadHist(args []string) {
 						}
 					}
 					cs["aspect"] = "offender"
-					rep.Mismatch(vh.Mismatch{Case: cs, Step: si + 1, What: fmt.Sprintf("offender: the error names none of %q: %v", st.Offs, err), Known: known})
+					rep.Mismatch(vh.Mismatch{Case: copyCase(cs), Step: si + 1, What: fmt.Sprintf("offender: the error names none of %q: %v", st.Offs, err), Known: known})
 				}
 			}
 			// after an accepted load the view of the new schema, after a refused load the view of the schema as it was
-			if *intro && st.Intro != nil && len(diffs) == 0 {
+			// (asked whatever the read-back says: a root that did not take a refused load back shows it here too)
+			if *intro && st.Intro != nil && okMatches {
 				for _, inc := range []bool{true, false} {
 					view, ierrs := sch.IntroView(root, inc)
 					exp := st.Intro.Current
@@ -223,7 +224,7 @@ func cmdLoadHist(args []string) {
 						cs["aspect"] = "intro"
 						cs["includeDeprecated"] = inc
 						cs["rootKind"] = rootKinds[hi%len(rootKinds)]
-						rep.Mismatch(vh.Mismatch{Case: cs, Step: si + 1, What: "intro: " + strings.Join(ids, "; "), Known: known})
+						rep.Mismatch(vh.Mismatch{Case: copyCase(cs), Step: si + 1, What: "intro: " + strings.Join(ids, "; "), Known: known})
 						break
 					}
 				}
@@ -231,7 +232,7 @@ func cmdLoadHist(args []string) {
 				r := root.ResolveString(`{ __type(name: "NoSuchTypeAnywhere") { name } }`, "", nil)
 				if d, _ := r["data"].(map[string]interface{}); d == nil || d["__type"] != nil || r["errors"] != nil {
 					cs["aspect"] = "intro"
-					rep.Mismatch(vh.Mismatch{Case: cs, Step: si + 1, What: fmt.Sprintf("intro: __type on an unknown name is not null: %v", r)})
+					rep.Mismatch(vh.Mismatch{Case: copyCase(cs), Step: si + 1, What: fmt.Sprintf("intro: __type on an unknown name is not null: %v", r)})
 				}
 			}
 			if *requests && err == nil && len(diffs) == 0 {
@@ -248,7 +249,7 @@ func cmdLoadHist(args []string) {
 						rep.Class("requests")
 						if strings.Join(ref, "\n") != strings.Join(answers, "\n") {
 							cs["aspect"] = "requests"
-							rep.Mismatch(vh.Mismatch{Case: cs, Step: si + 1, What: "requests: the root answers " + strings.Join(answers, " | ") +
+							rep.Mismatch(vh.Mismatch{Case: copyCase(cs), Step: si + 1, What: "requests: the root answers " + strings.Join(answers, " | ") +
 								" ; a root that loaded the same definitions as one document answers " + strings.Join(ref, " | ")})
 						}
 					}
@@ -261,7 +262,7 @@ func cmdLoadHist(args []string) {
 					cs["aspect"] = "atomic"
 					what = "atomic: after a FAILED load the root changed: "
 				}
-				rep.Mismatch(vh.Mismatch{Case: cs, Step: si + 1, What: what + strings.Join(diffs, "; "), Known: known})
+				rep.Mismatch(vh.Mismatch{Case: copyCase(cs), Step: si + 1, What: what + strings.Join(diffs, "; "), Known: known})
 				break
 			}
 		}
@@ -282,6 +283,15 @@ func cmdLoadHist(args []string) {
 		}
 	})
 	rep.Emit()
+}
+
+// copyCase: every mismatch gets its own copy of the case (the aspect is set on it before each report).
+func copyCase(cs map[string]interface{}) map[string]interface{} {
+	out := make(map[string]interface{}, len(cs))
+	for k, v := range cs {
+		out[k] = v
+	}
+	return out
 }
 
 // eachHistory reads histories one at a time: a JSON array of them, or one JSON document per line.
